@@ -3,9 +3,8 @@ import OjgVerif.Diff.Spec
 
 One Lean function per Go function, one branch per Go branch, over `JV`:
 
-* `JV.int i` stands for a Go integer of any kind (`int … uint64`, `gen.Int`) holding `i`; the model
-  is about values that fit `int64` (`uint`/`uint64` values ≥ 2^63 wrap in `asInt` — not modelled,
-  never generated). `JV.flt t` is a `float32`/`float64`/`gen.Float` whose exact value is the
+* `JV.int i` stands for a Go integer of any kind (`int … uint64`, `gen.Int`) holding `i`, so
+  -2^63 ≤ i < 2^64 (`IsMachineInt`); a value ≥ 2^63 is a `uint`/`uint64` (plain data only). `JV.flt t` is a `float32`/`float64`/`gen.Float` whose exact value is the
   decimal text `t` (NaN and ±Inf are not values of the model). `JV.big t` is a `json.Number`
   (reaches the `default` branch, is reflected to its string, compares by text); `JV.num` is treated
   the same way and never generated. `time.Time`, structs, `Simplifier`s other than the `gen` types
@@ -36,15 +35,19 @@ structure Dev where
   /-- C19-gen-root-number: a `gen.Int` root and a `gen.Float` root have different dynamic types
   and are reported different whatever their values -/
   genRoot : Bool
+  /-- C19-uint64-wrap: `asInt` turns a `uint`/`uint64` into `int64(tv)`; a value above `MaxInt64`
+  is compared as the negative `int64` with the same bits -/
+  uintWrap : Bool
   deriving DecidableEq, Repr
 
-/-- the code as it is now: every deviation is repaired in the repository — lastIndex (c0c8224),
-tailSkip (2f372fe), genRoot (36b721b), floatRound (23c2317). `Props/C19.lean` proves that the
-deviation set read off the regenerated source facts (`Gen/AltDiff.lean`) is this one. -/
-def Dev.current : Dev := ⟨false, false, false, false⟩
-/-- the pinned code (d4b55cf), before the four repairs -/
-def Dev.pinned : Dev := ⟨true, true, true, true⟩
-def Dev.fixed : Dev := ⟨false, false, false, false⟩
+/-- the code as it is now: four deviations are repaired in the repository — lastIndex (c0c8224),
+tailSkip (2f372fe), genRoot (36b721b), floatRound (23c2317); the uint64 wrap is a known finding
+(proposed fix: notes/proposed_fixes/C19_uint64_wrap.md). `Props/C19.lean` proves that the deviation
+set read off the regenerated source facts (`Gen/AltDiff.lean`) is this one. -/
+def Dev.current : Dev := ⟨false, false, false, false, true⟩
+/-- the pinned code (d4b55cf), before the repairs -/
+def Dev.pinned : Dev := ⟨true, true, true, true, true⟩
+def Dev.fixed : Dev := ⟨false, false, false, false, false⟩
 
 /-! ## asInt, asFloat -/
 
@@ -62,22 +65,75 @@ def roundF64 (i : Int) : Int :=
     let q' := if h < r ∨ (r = h ∧ q % 2 = 1) then q + 1 else q
     if i < 0 then -((q' * 2 ^ e : Nat) : Int) else ((q' * 2 ^ e : Nat) : Int)
 
-/-- `asInt`: every integer kind; a float only if `float64(int64(f)) == f`, i.e. `f` is integral and
-in the `int64` range (out of range the conversion yields `math.MinInt64` on amd64, whose float is
-not `f`) -/
+/-- `int64(tv)` of a `uint64`: the top half wraps to the negative numbers -/
+def wrap64 (i : Int) : Int := if 9223372036854775808 ≤ i then i - 18446744073709551616 else i
+
+/-- the integral value of a decimal, if it is integral -/
+def decInt? (d : Dec) : Option Int :=
+  if d.m % (10 : Int) ^ d.s = 0 then some (d.m / (10 : Int) ^ d.s) else none
+
+/-- `asInt` on a float: only if `float64(int64(f)) == f`, i.e. `f` is integral and in the `int64`
+range (out of range the conversion yields `math.MinInt64` on amd64, whose float is not `f`) -/
+def asIntDec (d : Dec) : Option Int :=
+  match decInt? d with
+  | some q => if inInt64 q = true then some q else none
+  | none => none
+
+/-- `asInt`: every integer kind, converted with `int64(tv)` (a `uint64` above `MaxInt64` wraps);
+a float only if it is integral and in the `int64` range -/
 def asInt : JV → Option Int
-  | .int i => some i
-  | .flt t =>
-    if (decVal t).m % (10 : Int) ^ (decVal t).s = 0 ∧ inInt64 ((decVal t).m / (10 : Int) ^ (decVal t).s) = true then
-      some ((decVal t).m / (10 : Int) ^ (decVal t).s)
-    else none
+  | .int i => some (wrap64 i)
+  | .flt t => asIntDec (decVal t)
   | _ => none
 
-/-- `asFloat`: floats as they are, integers through `float64(i)` -/
-def asFloat (D : Dev) : JV → Option Dec
+/-- `asFloat`: floats as they are, integers through `float64(tv)` -/
+def asFloat : JV → Option Dec
   | .flt t => some (decVal t)
-  | .int i => some ⟨if D.floatRound then roundF64 i else i, 0⟩
+  | .int i => some ⟨roundF64 i, 0⟩
   | _ => none
+
+/-- `asBigUint`: an unsigned value that no `int64` holds -/
+def isTop (i : Int) : Bool := decide (9223372036854775808 ≤ i)
+
+/-- `floatEqual(f, v)` (23c2317): floats by value; an integer as an integer — `f` integral, in
+range, and its conversion equal to the integer. With the uint64 fix the top half of `uint64` is
+compared through `uint64(f)`, before it through `asInt` like every other integer. -/
+def floatEqualM (D : Dev) (f : Dec) : JV → Bool
+  | .flt u => f.eq (decVal u)
+  | .int i =>
+    if !D.uintWrap && isTop i then
+      match decInt? f with
+      | some q => decide (9223372036854775808 ≤ q) && decide (q < 18446744073709551616) && q == i
+      | none => false
+    else
+      match asIntDec f with
+      | some q => q == wrap64 i
+      | none => false
+  | _ => false
+
+/-- the float cases of `diff` and `Match`: is the float `f` (left) equal to `v` (right)?
+Before 23c2317 through `asFloat`, since then through `floatEqual`. -/
+def fltCase (D : Dev) (f : Dec) (v : JV) : Bool :=
+  if D.floatRound then
+    match asFloat v with
+    | some g => f.eq g
+    | none => false
+  else floatEqualM D f v
+
+/-- the integer cases of `diff` and `Match`: is the integer `i` (left) equal to `v` (right)?
+As written: `i0, _ := asInt(v0); i1, ok := asInt(v1); ok && i0 == i1`. With the uint64 fix
+(`intEqual`): a float on the right goes to `floatEqual`, two integers are equal when both or
+neither are in the top half of `uint64` and the 64 bits agree. -/
+def intCase (D : Dev) (i : Int) (v : JV) : Bool :=
+  if D.uintWrap then
+    match asInt v with
+    | some j => wrap64 i == j
+    | none => false
+  else
+    match v with
+    | .flt u => floatEqualM D (decVal u) (.int i)
+    | .int j => if isTop i || isTop j then isTop i && isTop j && i == j else wrap64 i == wrap64 j
+    | _ => false
 
 /-! ## paths -/
 
@@ -210,12 +266,8 @@ def diffF (D : Dev) (ord : List Bytes → List Bytes) : Nat → Bool → JV → 
     | .bool b => match v1 with
       | .bool c => if b = c then [] else [here]
       | _ => [here]
-    | .int i => match asInt v1 with
-      | some j => if i = j then [] else [here]
-      | none => [here]
-    | .flt t => match asFloat D v1 with
-      | some f => if (decVal t).eq f then [] else [here]
-      | none => [here]
+    | .int i => if intCase D i v1 then [] else [here]
+    | .flt t => if fltCase D (decVal t) v1 then [] else [here]
     | .str s => match v1 with
       | .str u => if s = u then [] else [here]
       | _ => [here]
@@ -249,12 +301,8 @@ def matchF (D : Dev) : Nat → JV → JV → Bool
     | .bool b => match t with
       | .bool c => b == c
       | _ => false
-    | .int i => match asInt t with
-      | some j => i == j
-      | none => false
-    | .flt x => match asFloat D t with
-      | some f => (decVal x).eq f
-      | none => false
+    | .int i => intCase D i t
+    | .flt x => fltCase D (decVal x) t
     | .str s => match t with
       | .str u => s == u
       | _ => false
